@@ -67,7 +67,7 @@ func runProgram(env *Env, cfg dbx.Config, steps []dstep) (results []string, segs
 	// (its queued items may refer to segments that compaction removes in between)
 	var iter *pogreb.ItemIterator
 	for i, s := range steps {
-		if s.kind == "reopen" || s.kind == "crash" {
+		if s.kind == "reopen" || s.kind == "crash" || s.kind == "crashbac" {
 			iter = nil
 		}
 		e := core.Safe(func() error {
@@ -159,9 +159,16 @@ func runProgram(env *Env, cfg dbx.Config, steps []dstep) (results []string, segs
 					db = nil
 					return fmt.Errorf("reopen failed: %v", err)
 				}
-			case "crash":
+			case "crash", "crashbac":
 				db.VerifKill()
 				db = nil
+				if s.kind == "crashbac" {
+					// what a recovery leaves behind that died between rebuilding the index and
+					// removing its backups: every non-segment file X next to a stale X.bac
+					if err := plantBackups(env); err != nil {
+						return &core.Inconclusive{Msg: err.Error()}
+					}
+				}
 				// simulated unclean shutdown: a torn tail is appended to the newest segment
 				// through the file system's own API
 				entries, err := env.FS.ReadDir(env.Dir)
@@ -247,11 +254,72 @@ func sum(b []byte) uint32 {
 }
 
 // C17: behaviour does not depend on the FileSystem implementation.
-func propC17(ch core.Chooser, st *core.Stats) error {
+// plantBackups copies every non-segment file X of the database directory (the lock excluded) to
+// X.bac through the file system's own API.
+func plantBackups(env *Env) error {
+	entries, err := env.FS.ReadDir(env.Dir)
+	if err != nil {
+		return err
+	}
+	for _, de := range entries {
+		n := de.Name()
+		if strings.HasSuffix(n, ".psg") || strings.HasSuffix(n, ".bac") || n == "lock" {
+			continue
+		}
+		src, err := env.FS.OpenFile(filepath.Join(env.Dir, n), os.O_RDONLY, 0)
+		if err != nil {
+			return err
+		}
+		b, err := io.ReadAll(src)
+		_ = src.Close()
+		if err != nil {
+			return err
+		}
+		dst, err := env.FS.OpenFile(filepath.Join(env.Dir, n+".bac"), os.O_CREATE|os.O_RDWR|os.O_TRUNC, 0640)
+		if err != nil {
+			return err
+		}
+		_, err = dst.Write(b)
+		_ = dst.Close()
+		if err != nil {
+			return err
+		}
+	}
+	return nil
+}
+
+// C17, third job: the programs of the first job, with a drawn share of their unclean shutdowns
+// followed by the leftovers of an interrupted earlier recovery (stale *.bac files next to the
+// files they were renamed from). The next recovery renames onto names that exist; what the three
+// file systems make of that must not differ.
+func propC17Bac(ch core.Chooser, st *core.Stats) error { return propC17With(ch, st, true) }
+
+func propC17(ch core.Chooser, st *core.Stats) error { return propC17With(ch, st, false) }
+
+func propC17With(ch core.Chooser, st *core.Stats, bac bool) error {
 	seed := uint32(ch.Int("hashseed", 0, 1<<30))
 	cfg := dbx.Config{SegSize: uint32(core.PickInt(ch, "segsize", []int{1024, 4096, 70000, 200000})), MinSeg: 520, Frag: 0.02}
 	cfg.SyncWrites = core.Pct(ch, "syncwrites", 10)
 	steps := drawProgram(ch)
+	nbac := 0
+	if bac {
+		// at least one unclean shutdown with leftovers per program
+		crashes := 0
+		for i := range steps {
+			if steps[i].kind == "crash" {
+				crashes++
+				if core.Pct(ch, "leftover_backups", 60) {
+					steps[i].kind = "crashbac"
+					nbac++
+				}
+			}
+		}
+		if nbac == 0 {
+			at := ch.Int("crashbac_at", 0, len(steps))
+			steps = append(steps[:at:at], append([]dstep{{kind: "crashbac"}}, steps[at:]...)...)
+			nbac++
+		}
+	}
 	for i, s := range steps {
 		ch.Note("%d %s klen=%d vlen=%d torn=%d", i, s.kind, len(s.k), s.vlen, len(s.torn))
 	}
@@ -297,6 +365,12 @@ func propC17(ch core.Chooser, st *core.Stats) error {
 		}
 	}
 	st.Eval(3)
+	if bac {
+		st.Count("bac_programs", 1)
+		st.Count("bac_recoveries_over_leftover_backups", int64(nbac))
+		st.Nontrivial(core.FingerprintOf(ch))
+		return nil
+	}
 	st.Count("programs", 1)
 	st.Count("recoveries", int64(rec))
 	if len(segs[0]) > 1 || trunc > 0 || rem > 0 {
@@ -318,6 +392,8 @@ func propC17(ch core.Chooser, st *core.Stats) error {
 }
 
 func TestC17(t *testing.T) { core.Run(t, "C17", "C17", propC17) }
+
+func TestC17Bac(t *testing.T) { core.Run(t, "C17", "C17bac", propC17Bac) }
 
 // propC17File: file-level programs on the fs.File API, within the domain pogreb uses,
 // compared with a byte-slice model on every file system.
